@@ -40,6 +40,10 @@ CONSTANTS Actors,      \* goroutines
           StatBeforeLock, \* TRUE: "is there a record to load?" is decided (os.Stat) BEFORE the file lock is taken (seeded
                           \* defect c14-size-check-before-lock); FALSE: by Seek(0,2) on the locked, open file (code: FALSE)
           FreshUpdates,   \* TRUE: updates may run before anybody has created the record (first updates race on an absent file)
+          Kinds,          \* kinds of updates the actors make: subset of {"inc", "blind", "set", "clear"}
+          KeepAbsentFields, \* TRUE: a field that is absent from the stored text keeps its old in-memory value on a re-read (seeded
+                          \* defect c14-extradata-omitempty: a cleared ExtraData is stored without its key); FALSE: every field of
+                          \* the in-memory copy is replaced by the stored record (the code: all keys are always written)
           UnlinkLockWhenFinal, \* TRUE: UpdateFullStatus removes "status.lock" inside its critical section (seeded defect
                           \* c14-lockfile-removed-when-final; the configuration stands for a record that is and stays final)
           TruncFirst   \* TRUE: UpdateFullStatus truncates, then writes (the code before its repair);
@@ -53,14 +57,19 @@ Obj == { ObjOf[a] : a \in Actors }
 
 \* A stored record: a shared counter, one private field per actor, an opaque tag.
 ZeroOwn    == [a \in Actors |-> 0]
-Rec(c,o,h) == [k |-> "rec", cnt |-> c, own |-> o, h |-> h]
+\* x stands for a field that an update may CLEAR (ExtraData): 1 = present, 0 = cleared (stored as null - or, seeded, not at all)
+Rec(c,o,h) == [k |-> "rec", cnt |-> c, own |-> o, h |-> h, x |-> 1]
 IsRec(x)   == x.k = "rec"
 
 \* The possible results of the update callback of actor a applied to record m:
 \*  "inc"   - the harness' counting update: shared counter + 1, own field + 1
 \*  "blind" - UpdateBasicStatus-like: only the opaque part changes
-SuccInc(m, a, h)   == Rec(m.cnt + 1, [m.own EXCEPT ![a] = @ + 1], h)
-SuccBlind(m, a, h) == Rec(m.cnt, m.own, h)
+SuccInc(m, a, h)   == [Rec(m.cnt + 1, [m.own EXCEPT ![a] = @ + 1], h) EXCEPT !.x = m.x]
+SuccBlind(m, a, h) == [Rec(m.cnt, m.own, h) EXCEPT !.x = m.x]
+SuccSet(m, a, h)   == [Rec(m.cnt, m.own, h) EXCEPT !.x = 1]
+SuccClear(m, a, h) == [Rec(m.cnt, m.own, h) EXCEPT !.x = 0]
+\* what a re-read leaves in the in-memory copy old when the stored record is f
+ReadInto(old, f) == IF KeepAbsentFields /\ f.x = 0 THEN [f EXCEPT !.x = old.x] ELSE f
 
 VARIABLES
   file,      \* Absent | Empty | record          - the content of "status"
@@ -141,7 +150,7 @@ UFS_ReadC(a, m0) ==
   /\ pc[a] = "u_locked"
   \* size := Seek(0,2) on the locked file - one step with the load, inside the lock
   /\ IF Reread /\ (IF StatBeforeLock THEN sawRec[a] /\ IsRec(file) ELSE IsRec(file))
-       THEN mem' = [mem EXCEPT ![ObjOf[a]] = file] /\ rver' = [rver EXCEPT ![a] = fver]
+       THEN mem' = [mem EXCEPT ![ObjOf[a]] = ReadInto(@, file)] /\ rver' = [rver EXCEPT ![a] = fver]
        ELSE mem' = [mem EXCEPT ![ObjOf[a]] = m0] /\ rver' = [rver EXCEPT ![a] = IF Reread /\ ~IsRec(file) THEN fver ELSE @]
   /\ pc' = [pc EXCEPT ![a] = "u_read"]
   /\ UNCHANGED <<file, fver, lock, olock, kind, left, done, doneBy, torn, lost, sawRec, oldlock, oldq>>
@@ -151,7 +160,8 @@ UFS_Read(a) == UFS_ReadC(a, mem[ObjOf[a]])
 \* statusFunc(sfd)
 UFS_Apply(a, h) ==
   /\ pc[a] = "u_read"
-  /\ mem' = [mem EXCEPT ![ObjOf[a]] = IF kind[a] = "inc" THEN SuccInc(@, a, h) ELSE SuccBlind(@, a, h)]
+  /\ mem' = [mem EXCEPT ![ObjOf[a]] = CASE kind[a] = "inc" -> SuccInc(@, a, h) [] kind[a] = "set" -> SuccSet(@, a, h)
+                                          [] kind[a] = "clear" -> SuccClear(@, a, h) [] OTHER -> SuccBlind(@, a, h)]
   /\ pc' = [pc EXCEPT ![a] = "u_applied"]
   /\ UNCHANGED <<file, fver, lock, olock, rver, kind, left, done, doneBy, torn, lost, sawRec, oldlock, oldq>>
 
@@ -200,7 +210,7 @@ Load_Lock(a) ==
 \* os.Open + ReadAll + Unmarshal: ENOENT when Absent (an error, not a torn read), parse error when Empty
 Load_Read(a) ==
   /\ pc[a] = "l_locked"
-  /\ IF IsRec(file) THEN mem' = [mem EXCEPT ![ObjOf[a]] = file] ELSE UNCHANGED mem
+  /\ IF IsRec(file) THEN mem' = [mem EXCEPT ![ObjOf[a]] = ReadInto(@, file)] ELSE UNCHANGED mem
   /\ torn' = [torn EXCEPT ![a] = @ \/ file = Empty]
   /\ pc' = [pc EXCEPT ![a] = "l_read"]
   /\ UNCHANGED <<file, fver, lock, olock, rver, kind, left, done, doneBy, lost, sawRec, oldlock, oldq>>
@@ -246,7 +256,7 @@ Save_Unlock(a) ==
 
 \* ----------------------------------------------------------------
 Step(a) ==
-  \/ \E k \in {"inc", "blind"} : UFS_Begin(a, k)
+  \/ \E k \in Kinds : UFS_Begin(a, k)
   \/ UFS_Lock(a) \/ UFS_Read(a) \/ (\E h \in Tags : UFS_Apply(a, h)) \/ UFS_Trunc(a) \/ UFS_Write(a) \/ UFS_Unlock(a)
   \/ Load_Begin(a) \/ Load_Lock(a) \/ Load_Read(a) \/ Load_Unlock(a)
   \/ Save_Begin(a) \/ Save_Lock(a) \/ Save_Trunc(a) \/ Save_Write(a) \/ Save_Unlock(a)
@@ -273,6 +283,8 @@ NoLostUpdate ==
         /\ file.cnt = done
         /\ \A a \in Actors : file.own[a] = doneBy[a]
 
+\* the update is applied to the LATEST STORED record: after the read step the in-memory copy is the stored record, field by field
+ReadReplacesAll == \A a \in Actors : (pc[a] = "u_read" /\ IsRec(file) /\ Reread /\ ~StatBeforeLock) => mem[ObjOf[a]] = file
 \* a reader never sees a partially written (here: truncated, not yet rewritten) record
 NoTornRead == \A a \in Actors : ~torn[a]
 
